@@ -74,7 +74,18 @@ def check_class(ctx, name, cq):
         raise AnalysisError('%s has no __call__' % cq)
     prm = f.params
     target_p, creds_p, enf_p = prm[1], prm[2], prm[3]
-    fns = class_functions(prog, f)
+    # methods the class shares with a base are analysed for this class:
+    # self.<constant> and self.<method>() resolve from `cq` downwards
+    old_hint = getattr(prog, '_self_cls_hint', None)
+    prog._self_cls_hint = cq
+    saved_callees = dict(prog._callees)
+    prog._callees.clear()
+    try:
+        fns = class_functions(prog, f)
+    finally:
+        prog._self_cls_hint = old_hint
+        prog._callees.clear()
+        prog._callees.update(saved_callees)
     helper_quals = {g.qual for g in fns if g is not f}
 
     def inline(call, frame):
@@ -83,7 +94,7 @@ def check_class(ctx, name, cq):
             return None
         return g
     t = Table(prog, f, inline=inline if helper_quals else None,
-              max_paths=200000)
+              max_paths=200000, self_cls=cq)
     F = ctx.where(f.module, f.node).split(':')[0]
     seen = set()
     canon = set()
